@@ -44,7 +44,8 @@ def route(case):
 # ------------------------------------------------------------------ pppoe
 CF = ["creq_ok", "creq_nak", "creq_rej", "creq_bad", "cack", "cack_bad", "cnak", "cnak_bad", "crej", "crej_bad",
       "treq", "tack", "cdrej", "unkcode"]
-LCPX = ["echoreq", "echorep", "discreq", "prej_ipcp", "prej_ip6cp", "prej_other", "crej_auth", "cnak_pap", "cnak_chap"]
+LCPX = ["echoreq", "echorep", "discreq", "prej_ipcp", "prej_ip6cp", "prej_other", "crej_auth", "cnak_pap", "cnak_chap",
+        "cnak_zero", "cnak_eap", "cnak_short", "crej_all"]
 FRAMES = ([("lcp", k) for k in CF + LCPX] + [("ipcp", k) for k in CF] + [("ip6cp", k) for k in CF] +
           [("pap", k) for k in ("req", "req_bad", "other")] + [("chap", k) for k in ("resp", "resp_bad", "other")] +
           [("ip6", k) for k in ("rs", "ns", "junk")] + [("unk", k) for k in ("ip4", "ccp", "short")])
@@ -83,6 +84,11 @@ def prefixes():
         "terminated": opn + ["x:0"],
         "static": pend + ["a:1:accip"] + ncp_up(0),
         "pap": o + [fr(0, "lcp", "cnak_pap"), fr(0, "lcp", "creq_ok"), fr(0, "lcp", "cack"), fr(0, "pap", "req")],
+        # the peer refuses / rewrites the BNG's own Authentication-Protocol option, then lets LCP open
+        "authzero": o + [fr(0, "lcp", "cnak_zero"), fr(0, "lcp", "creq_ok"), fr(0, "lcp", "cack")],
+        "autheap": o + [fr(0, "lcp", "cnak_eap"), fr(0, "lcp", "creq_ok"), fr(0, "lcp", "cack")],
+        "authrej": o + [fr(0, "lcp", "crej_all"), fr(0, "lcp", "creq_ok"), fr(0, "lcp", "cack")],
+        "authzero_reneg": opn + [fr(0, "lcp", "cnak_zero"), fr(0, "lcp", "creq_ok"), fr(0, "lcp", "cack")],
     }
 
 
@@ -94,7 +100,7 @@ def alphabet(i=0):
     return evs
 
 
-PROBES = [[fr(0, "ipcp", "creq_ok"), "t:0:ipcp", fr(0, "ip6", "rs")],
+PROBES = [[fr(0, "ipcp", "creq_ok"), "t:0:ipcp", fr(0, "ip6cp", "creq_ok"), fr(0, "ip6cp", "cack"), fr(0, "ip6", "rs")],
           [fr(0, "lcp", "creq_ok"), fr(0, "lcp", "cack"), fr(0, "chap", "resp"), "a:2:acc", "a:3:acc", fr(0, "ipcp", "creq_ok")],
           ["a:1:acc", "a:2:acc", fr(0, "ip6cp", "creq_ok"), "t:0:ip6cp", "x:0", "a:2:acc"]]
 
